@@ -240,7 +240,7 @@ theorem applyPair_shape (st : St) (a p : Nat) (g1 g2 : Glyph) (pa : PairAdj)
     intro g2' _ _
     exact ⟨rfl, by simp⟩
 
-theorem applyMark_shape (add : Bool) (st : St) (a : Nat) (markCov baseCov : Cov) (marks : List MarkRec)
+theorem applyMark_shape (add : Nat → Bool) (st : St) (a : Nat) (markCov baseCov : Cov) (marks : List MarkRec)
     (bases : List (List Anchor)) (hm : covBelow markCov marks.length = true)
     (hb : covBelow baseCov bases.length = true) (ha : a < st.seq.length) :
     Safe (SameShape st) (applyMark add st a markCov baseCov marks bases) := by
@@ -256,15 +256,16 @@ theorem applyMark_shape (add : Bool) (st : St) (a : Nat) (markCov baseCov : Cov)
     · trivial
     · split
       · trivial
-      · rename_i bi advs hfb
-        obtain ⟨g0, hg0⟩ := findBase_some _ _ _ _ _ hfb
-        refine Safe.bind (idx_safe (covBelow_lt hb hg0)) ?_
-        intro row _ _
-        split
+      · split
         · trivial
-        · split
+        · rename_i bi hbi
+          refine Safe.bind (idx_safe (covBelow_lt hb hbi)) ?_
+          intro row _ _
+          split
           · trivial
-          · exact sameShape_set _ _ _ _
+          · split
+            · trivial
+            · exact sameShape_set _ _ _ _
 
 theorem applySub_shape (kp : Nat → Bool) (st : St) (a : Nat) (b : Int) (s : Subtable)
     (hg : s.guarded = true) (hs : s.contextual = false) (hf : s.fixedLen = true)
@@ -429,14 +430,14 @@ theorem applySub_shape (kp : Nat → Bool) (st : St) (a : Nat) (b : Int) (s : Su
           · trivial
         · intro ad _ _
           exact sameShape_set _ _ _ _
-  | gpos41 markCov baseCov marks bases =>
+  | gpos41 markCov baseCov marks bases gclass =>
     simp only [Subtable.guarded, Bool.and_eq_true] at hg
     simp only [applySub]
-    exact applyMark_shape true st a _ _ _ _ hg.1 hg.2 ha
+    exact applyMark_shape _ st a _ _ _ _ hg.1 hg.2 ha
   | gpos61 markCov baseCov marks bases =>
     simp only [Subtable.guarded, Bool.and_eq_true] at hg
     simp only [applySub]
-    exact applyMark_shape false st a _ _ _ _ hg.1 hg.2 ha
+    exact applyMark_shape _ st a _ _ _ _ hg.1 hg.2 ha
 
 theorem SameShape.stepWF {ll : LookupList} {st : St} (hwf : WF ll st) {r : Option (St × Nat)} (h : SameShape st r) :
     StepWF ll st r := by
@@ -618,7 +619,7 @@ theorem applySub_ctxWF (ll : LookupList) (kp : Nat → Bool) (st : St) (a : Nat)
   | gpos21 _ => simp [Subtable.contextual] at hs
   | gpos22 _ _ _ _ => simp [Subtable.contextual] at hs
   | gpos31 _ _ => simp [Subtable.contextual] at hs
-  | gpos41 _ _ _ _ => simp [Subtable.contextual] at hs
+  | gpos41 _ _ _ _ _ => simp [Subtable.contextual] at hs
   | gpos61 _ _ _ _ => simp [Subtable.contextual] at hs
 
 /-! ## a nested multiple substitution: `fixStackInsert` keeps the entries inside the longer sequence -/
